@@ -1,5 +1,5 @@
 (* C03 — correspondence cases.  A case is a user-level template tree, two parameter assignments (the second one is a
-   variant of the first: extra names added / irrelevant values changed), the channel-drop flag, and what the real
+   variant of the first: extra names added / irrelevant values changed), the set of dropped channels, and what the real
    code did: sorted `parameter_names` and the kind of outcome of `create_program` for both assignments.
    check_corr: the operational model (Model.v) reproduces the observation.
    check_spec: the property's clauses evaluated from the independent specification (Spec.v: visible constraints,
@@ -12,7 +12,7 @@ Open Scope Z_scope.
 Inductive outcome := OProg | ONone | OMissing | OViolated | OOther.
 
 Inductive case :=
-| CCase (p : pt) (drop : bool) (names : list ident)
+| CCase (p : pt) (drop : list ident) (names : list ident)
         (values : list (ident * Q)) (out : outcome)
         (values2 : list (ident * Q)) (out2 : outcome)
 | CCrash.
@@ -57,7 +57,7 @@ Definition check_corr (c : case) : bool :=
 Definition env_of (values : list (ident * Q)) : env := fun x => assoc x values.
 
 (* clauses (a), (c), (d) for one assignment; `names` = the declared parameter names (as observed) *)
-Definition spec_one (p : pt) (drop : bool) (names : list ident) (values : list (ident * Q)) (out : outcome) : bool :=
+Definition spec_one (p : pt) (drop : list ident) (names : list ident) (values : list (ident * Q)) (out : outcome) : bool :=
   let rho := env_of values in
   let complete := subset names (map fst values) in
   (* (a) all declared names supplied: never "missing parameter" *)
